@@ -67,16 +67,24 @@ PTR_READ = re.compile(r"\* \( self \. buffer \. as_ptr \( \) \. add \( self \. b
 HOOK = re.compile(r'# \[ cfg \( feature = "verif" \) \] crate :: verif :: [^;]* ;')
 FLOAT_TESTS = {"util :: are_close_f64 ( 0.0 , NOISE_MAX_DEVIATION )": "Gen.NOISE_STD_DEV_X10 * Gen.NOISE_WIDTH_MULTIPLIER_X10 = 0",
                "util :: are_close_f64 ( 3.2 , NOISE_STANDARD_DEVIATION )": "Gen.NOISE_STD_DEV_X10 = 32"}
+def contains_readings():
+    """skeleton of `Ciphertext::contains_seed` (TRUSTED): `&self` = the flat buffer + `size`, `cn`, `ck`; `self.poly(1)` = `&data[1·d .. (1+1)·d]`"""
+    D = "( cn * ck )"
+    return [("fn contains_seed ( & self ) -> bool {", "fn contains_seed ( data : & [ u64 ] , size : usize , cn : usize , ck : usize ) -> bool {"),
+            ("self . size", "size"),
+            ("self . poly ( 1 )", "data [ 1 * %s .. ( 1 + 1 ) * %s ]" % (D, D))]
+
+
 def expand_readings(seed_words):
     """skeleton of `Ciphertext::expand_seed` over the flat data buffer (TRUSTED; each key must occur exactly once):
-    by-value `self` that is returned = the buffer as `&mut`; `contains_seed()` = a Boolean input; `poly_mut(i)` = `&mut data[i·d .. (i+1)·d]`,
+    by-value `self` that is returned = the buffer as `&mut`; `contains_seed()` = the translated skeleton of it; `poly_mut(i)` = `&mut data[i·d .. (i+1)·d]`,
     d = degree · moduli; `poly_component_mut(1, 0)` = `&mut data[n·(1·k+0) .. +n]` (bounds-checked), and the six pointer statements = the
     64 bytes of the 8 words that follow its first word"""
     D = "( cn * ck )"; OFF = "cn * ( 1 * ck + 0 )"
     return [
         ("fn expand_seed ( mut self , context : & HeContext ) -> Self {",
-         "fn expand_seed ( data : & mut [ u64 ] , size : usize , cn : usize , ck : usize , has_seed : bool , parms : & EncryptionParameters ) {"),
-        ("self . contains_seed ( )", "has_seed"),
+         "fn expand_seed ( data : & mut [ u64 ] , size : usize , cn : usize , ck : usize , parms : & EncryptionParameters ) {"),
+        ("self . contains_seed ( )", "contains_seed ( data , size , cn , ck )"),
         ("self . size ( )", "size"),
         # the six pointer statements; the local names are wildcards (renaming them is harmless), everything else is pinned
         ("re", r"let (\w+) = std :: mem :: size_of :: < PRNGSeed > \( \) ;\n"
@@ -114,9 +122,9 @@ class Gen:
 
     def const(self, rel, name):
         src = self.T.strip_comments(open(os.path.join(self.tr.repo, rel)).read())
-        ms = re.findall(r"\bconst\s+%s\s*:\s*usize\s*=\s*([0-9_]+)\s*;" % name, src)
-        if len(ms) != 1: self.fail(f"const {name}: usize = <literal> found {len(ms)} times in {rel}")
-        return int(ms[0].replace("_", ""))
+        ms = re.findall(r"\bconst\s+%s\s*:\s*(?:usize|u64)\s*=\s*(0x[0-9a-fA-F_]+|[0-9_]+)\s*;" % name, src)
+        if len(ms) != 1: self.fail(f"const {name}: usize/u64 = <literal> found {len(ms)} times in {rel}")
+        return int(ms[0].replace("_", ""), 0)
 
     def parse_struct(self, ent):
         src = self.T.strip_comments(open(os.path.join(self.tr.repo, ent["file"])).read())
@@ -169,6 +177,10 @@ class Gen:
                 norm = norm.replace(key, rep)
         for cname, crel in ent.get("consts", {}).items():      # `[v; CONST]`: the parser wants a literal repeat length
             norm = re.sub(r"\[ (\S+) ; %s \]" % cname, lambda m: "[ %s ; %d ]" % (m.group(1), self.const(crel, cname)), norm)
+        if ent.get("skeleton") == "contains_seed":
+            for key, rep in contains_readings():
+                if norm.count(key) != 1: self.fail(f"fn {name}: skeleton reading `{key}` matches {norm.count(key)} times")
+                norm = norm.replace(key, rep)
         if ent.get("skeleton") == "expand_seed":
             nb = self.const("src/util/basic.rs", "HE_PRNG_SEED_BYTES")
             if nb % 8: self.fail("HE_PRNG_SEED_BYTES is not a multiple of 8")
@@ -218,6 +230,7 @@ class Lower:
     def lean_ty(self, t):
         if t in WORDS: return "Nat"
         if t == "i32": return "Int"
+        if t == "bool": return "Bool"
         if t in ("bytes", "words", "moduli"): return "List Nat"
         if t == "rng": return "σ"
         if t in ("self", "selfval"): return self.g.struct["name"]
@@ -255,6 +268,7 @@ class Lower:
         """`want`: the type an untyped literal takes"""
         k = e[0]
         if k == "paren": return self.ex(e[1], env, ops, want)
+        if k == "bool": return ("True" if e[1] else "False"), "bool"
         if self.is_lit(e):
             if want is None: self.fail("integer literal whose type is not fixed by its context")
             return self.lit_as(self.lit_val(e), want)
@@ -264,14 +278,17 @@ class Lower:
                 v = env[e[1][0]]
                 if v["ty"] == "closure": self.fail(f"closure `{e[1][0]}` used as a value")
                 return v["lean"], v["ty"]
-            if len(e[1]) == 1 and e[1][0] in self.ent.get("consts", {}):
-                return str(self.g.const(self.ent["consts"][e[1][0]], e[1][0])), "usize"
+            if e[1][-1] in self.ent.get("consts", {}) and (len(e[1]) == 1 or e[1][:-1] == ["util"]):
+                rel, cty = self.ent["consts"][e[1][-1]] if isinstance(self.ent["consts"][e[1][-1]], tuple) else (self.ent["consts"][e[1][-1]], "usize")
+                return str(self.g.const(rel, e[1][-1])), cty
             self.fail(f"unknown identifier `{'::'.join(e[1])}`")
         if k == "field":
             if e[1] == ("path", ["self"]) and "self" in env:
                 for f, lt, rt in self.g.struct["fields"]:
                     if f == e[2]: return f"{env['self']['lean']}.{f}", ("bytes" if lt == "List Nat" else rt)
             self.fail(f"field access `.{e[2]}`")
+        if k == "index" and e[2][0] == "range":
+            return self.ex(("ref", False, e), env, ops)
         if k == "index":
             b, bt = self.ex(e[1], env, ops)
             if bt not in ("bytes", "words", "moduli"): self.fail("indexing a value that is not a buffer")
@@ -364,6 +381,9 @@ class Lower:
             res.append((bo, a, at))
         if res[0][2] != res[1][2]: self.fail("value `if` with branches of different types")
         t = self.tmp(res[0][2])
+        if res[0][2] == "bool":      # Boolean branches: the value is a `Bool`, used as the proposition `t = true`
+            ops.append(f"let {t} : Bool ← (if {c} then {self.doblock(res[0][0], 'pure (decide ' + res[0][1] + ')')} else {self.doblock(res[1][0], 'pure (decide ' + res[1][1] + ')')})")
+            return f"({t} = true)", "bool"
         ops.append(f"let {t} ← (if {c} then {self.doblock(res[0][0], 'pure ' + res[0][1])} else {self.doblock(res[1][0], 'pure ' + res[1][1])})")
         return t, res[0][2]
 
@@ -439,6 +459,13 @@ class Lower:
             a, at = self.ex(args[0], env, ops)
             if at != "bytes": self.fail("BlakeRNG::from_seed of a value that is not a byte array")
             t = self.tmp("self"); ops.append(f"let {t} ← {self.g.sigs['from_seed']['lean']} {a}"); return t, "self"
+        if name == "contains_seed" and "contains_seed" in self.g.sigs and len(args) == 4:
+            xs = []
+            for a, want_t in zip(args, ("words", "usize", "usize", "usize")):
+                x, xt = self.ex(a, env, ops)
+                if xt != want_t: self.fail(f"contains_seed: argument of type {xt}")
+                xs.append(x)
+            t = self.tmp("bool"); ops.append(f"let {t} ← {self.g.sigs['contains_seed']['lean']} {' '.join(xs)}"); return f"({t} = true)", "bool"
         if name == "__xof":
             s, _ = self.ex(args[0], env, ops); c, _ = self.ex(args[1], env, ops); self.uses_xof = True
             return f"(xof {s} {c})", "bytes"
@@ -603,7 +630,7 @@ class Lower:
         outs = [env[p]["lean"] for p in self.out_params]
         if val is not None:
             if val[1] != self.ret_ty: self.fail(f"result of type {val[1]}, declared {self.ret_ty}")
-            outs.append(val[0])
+            outs.append(f"(decide {val[0]})" if self.ret_ty == "bool" else val[0])
         elif self.ret_ty is not None: self.fail("missing result value")
         return "pure " + (self.tup(outs) if outs else "()")
 
@@ -744,7 +771,7 @@ class Lower:
 
     def head(self):
         return ("{σ : Type} (G : RngOps σ) " if self.fn["generic"] else "") + ("(xof : XofL) " if self.has_self else "") + \
-               (f"(B : RngOps {self.g.struct['name']}) " if self.ent.get("skeleton") else "")
+               (f"(B : RngOps {self.g.struct['name']}) " if self.ent.get("skeleton") == "expand_seed" else "")
 
     def head_args(self):
         return ("G " if self.fn["generic"] else "") + ("xof " if self.has_self else "")
@@ -856,6 +883,7 @@ class Lower:
                 binders.append(f"({ln}_qs : List Nat) ({ln}_n : Nat)"); kinds.append("parms"); continue
             elif pt == ("ref", True, ("arr", ("name", "u8"), None)): ty = "bytes"; isout = True
             elif pt == ("ref", True, ("arr", ("name", "u64"), None)): ty = "words"; isout = True
+            elif pt == ("ref", False, ("arr", ("name", "u64"), None)): ty = "words"; isout = False
             elif pt[0] == "name" and pt[1] in WORDS: ty = pt[1]; isout = False
             elif pt == ("name", "bool"):
                 env[pn] = {"lean": f"({ln} = true)", "ty": "bool", "mut": False}; binders.append(f"({ln} : Bool)"); kinds.append("bool"); continue
@@ -866,7 +894,7 @@ class Lower:
             if isout: self.out_params.append(pn)
         rt = fn["ret"]
         if rt == ("tuple", []): self.ret_ty = None
-        elif rt[0] == "name" and rt[1] in WORDS + ("i32",): self.ret_ty = rt[1]
+        elif rt[0] == "name" and rt[1] in WORDS + ("i32", "bool"): self.ret_ty = rt[1]
         elif rt == ("name", "Self") and self.g.struct is not None and self.ent.get("impl", "").split()[-1] == self.g.struct["name"]: self.ret_ty = "selfval"
         else: self.fail(f"return type {rt}")
         ops = []
